@@ -277,7 +277,7 @@ def run(ctx):
     ctx.proof_leg(TARGETS, PINS, k_targets=["model/ClassGraph.vo"])
     vh = ctx.need_harness()
     rng = ctx.rng
-    ngraphs = 2500 if ctx.tier == "thorough" else 400
+    ngraphs = 7500 if ctx.tier == "thorough" else 400
     graphs = []
     corpus = [
         # F13 witness: dangling name before a valid base
